@@ -7,6 +7,8 @@ def removeOutputsCalls : List String := ["Outputs", "RemoveAll"]
 def oldOutputsRehashedBeforeCommand : Bool := true
 def outputHashRecalcArgs : List String := ["true", "true"]
 def stampPhaseCalls : List String := ["OutputHash", "writeRuleHash"]
+def verifyThenStamp : List String := ["OutputHash", "checkRuleHashes", "writeRuleHash", "Chmod"]
+def verifyFailureReturnsError : Bool := true
 def moveOutputsLoopsOverOutputs : Bool := true
 def moveOutputCalls : List String := ["Hash", "PathExists", "Hash", "Equal", "RemoveAll", "PathExists", "MkdirAll", "Rename", "RecursiveCopy"]
 def moveOutputKeepsBeforeRemove : Bool := true
